@@ -305,17 +305,28 @@ fn gen_option(r: &mut Rng, out: &mut Vec<u8>) {
         }
     }
 }
-/// A malformed tail.
+/// One malformed option: every kind of malformation the option grammar distinguishes.
 fn gen_bad_tail(r: &mut Rng, out: &mut Vec<u8>) {
-    match r.below(8) {
-        0 => out.push(*r.pick(&[2u8, 3, 4, 5, 8, 77])), // kind without a length byte
+    match r.below(14) {
+        0 => out.push(*r.pick(&[2u8, 3, 4, 5, 8, 77])), // kind without a length byte (only malformed as the last byte)
         1 => out.extend([*r.pick(&[2u8, 3, 8, 77]), 0]),
         2 => out.extend([*r.pick(&[2u8, 3, 8, 77]), 1, 9]),
-        3 => out.extend([2, 4, 5]),                      // runs past the end
+        3 => out.extend([2, 4, 5]),                      // runs past the end (as a tail)
         4 => out.extend([8, 10, 0, 0, 0, 1]),           // truncated timestamp
         5 => out.extend([2, 3, 5]),                      // wrong fixed length
         6 => out.extend([3, 2]),                         // window scale without payload
-        _ => out.extend([8, 6, 0, 0, 0, 0]),            // timestamp with 4 bytes only
+        7 => out.extend([8, 6, 0, 0, 0, 0]),            // timestamp with 4 bytes only
+        8 => out.extend([4, 3, 9]),                      // SACK-permitted with a payload
+        9 => {
+            // SACK whose size is not 2 + 8n
+            let l = *r.pick(&[2u8, 4, 9, 11, 12]);
+            out.extend([5, l]);
+            out.extend(r.bytes(l as usize - 2));
+        }
+        10 => out.extend([5, 42]),                       // SACK with five blocks / running past the end
+        11 => out.extend([2, 5, 5, 0xb4, 0]),           // MSS one byte too long
+        12 => out.extend([3, 4, 15, 15]),                // window scale one byte too long
+        _ => out.extend([*r.pick(&[6u8, 30, 77, 254]), *r.pick(&[40u8, 41, 255])]), // unknown kind running past the end
     }
 }
 pub fn gen_opts(r: &mut Rng) -> Vec<u8> {
@@ -350,6 +361,29 @@ pub fn gen_opts(r: &mut Rng) -> Vec<u8> {
             gen_bad_tail(r, &mut t);
             if o.len() + t.len() <= 40 {
                 o.extend(t);
+            }
+        }
+        3 if r.chance(1, 2) => {
+            // a malformed option first, well-formed ones (also a second timestamp / window scale / EOL) after it
+            let mut t = vec![];
+            gen_bad_tail(r, &mut t);
+            for _ in 0..r.range(1, 3) {
+                gen_option(r, &mut t);
+            }
+            if r.chance(1, 3) {
+                t.extend([0, *r.pick(&[0u8, 1, 7])]);
+            }
+            if o.len() + t.len() <= 40 {
+                o.extend(t);
+            } else if t.len() <= 40 {
+                o = t;
+            }
+        }
+        3 => {
+            // one byte of a well-formed area replaced (mostly hits a kind or length byte)
+            if !o.is_empty() {
+                let i = r.below(o.len() as u64) as usize;
+                o[i] = *r.pick(&[0u8, 1, 2, 3, 4, 5, 8, 10, 12, 40, 255]);
             }
         }
         _ => {}
@@ -551,9 +585,38 @@ pub fn run(ctx: &mut Ctx) {
         emit4(ctx, &ip, &Tcp { window: 7400, opts: vec![2, 4, 5, 0xb4], ..Default::default() });
         emit4(ctx, &ip, &Tcp { window: 7325, opts: vec![2, 4, 5, 0xb4], ..Default::default() });
         emit4(ctx, &ip, &Tcp { window: 4320, opts: vec![2, 4, 5, 0x78], ..Default::default() });
-        // fixed: WSCALE without payload (`03 02`), lone trailing `03`
+        // fixed: WSCALE without payload (`03 02`), lone trailing `03` — since fixes/C03-bad-quirk-for-malformed-options.patch
+        // also the witness of the repaired finding "bad never reported": quirks df,id+,bad
         emit4(ctx, &ip, &Tcp { opts: vec![3, 2, 1, 1], ..Default::default() });
         emit4(ctx, &ip, &Tcp { opts: vec![1, 1, 1, 3], ..Default::default() });
+        // one witness per kind of malformation the option grammar distinguishes (SYN and SYN+ACK, v4 and v6):
+        // no length byte; length byte 0 / 1; running past the area; wrong size of MSS / WS / SOK / SACK / TS;
+        // and well-formed neighbours of each (no `bad`)
+        let bad: [&[u8]; 17] = [
+            &[1, 1, 1, 2], &[77, 0, 1, 1], &[77, 1, 1, 1], &[77, 5, 1, 1], &[1, 2, 4, 5], &[2, 4, 5, 0xb4, 1, 8, 10, 0], &[2, 3, 5, 1], &[2, 5, 5, 0xb4, 1, 1, 1, 1],
+            &[3, 2, 1, 1], &[3, 4, 7, 7], &[4, 3, 1, 1], &[4, 4, 1, 1], &[5, 2, 1, 1], &[5, 4, 1, 1, 1, 1, 1, 1],
+            &[5, 11, 1, 2, 3, 4, 5, 6, 7, 8, 9, 1], &[8, 6, 0, 0, 0, 1, 1, 1], &[8, 11, 0, 0, 0, 1, 0, 0, 0, 0, 7, 1],
+        ];
+        let good: [&[u8]; 8] = [
+            &[77, 2, 1, 1], &[77, 4, 1, 1], &[2, 4, 5, 0xb4], &[3, 3, 7, 1], &[4, 2, 1, 1], &[5, 10, 1, 2, 3, 4, 5, 6, 7, 8, 1, 1],
+            &[8, 10, 0, 0, 0, 1, 0, 0, 0, 0, 1, 1], &[2, 4, 5, 0xb4, 0, 2, 9, 9],
+        ];
+        for o in bad.iter().chain(good.iter()) {
+            emit4(ctx, &ip, &Tcp { opts: o.to_vec(), ..Default::default() });
+            emit4(ctx, &ip, &Tcp { opts: o.to_vec(), flags: 0x12, ack: 9, ..Default::default() });
+            emit6(ctx, &V6::default(), &Tcp { opts: o.to_vec(), ..Default::default() });
+        }
+        // a malformed option is not the end of the walk: what follows it is still listed (layout, MSS, quirks) and `bad` comes last
+        emit4(ctx, &ip, &Tcp { opts: vec![3, 2, 2, 4, 5, 0xb4, 3, 3, 15, 8, 10, 0, 0, 0, 0, 0, 0, 0, 5], ..Default::default() });
+        // open finding KF-C03-malformed-repeats-quirk: `03 02`, then two window-scale options with shift 15: exws twice
+        emit4(ctx, &ip, &Tcp { opts: vec![3, 2, 3, 3, 15, 3, 3, 15], ..Default::default() });
+        // the option area clipped by the buffer (IP total length ends inside the options): what is there is judged
+        {
+            let full = v4_bytes(&ip, &tcp_bytes(&Tcp { opts: vec![2, 4, 5, 0xb4, 8, 10, 0, 0, 0, 1, 0, 0, 0, 0, 1, 1], ..Default::default() }));
+            for cut in 41..=56usize {
+                emit_pkt(ctx, false, &full[..cut]);
+            }
+        }
     }
 
     // ---- 2. exhaustive sub-enumerations
@@ -650,6 +713,43 @@ pub fn run(ctx: &mut Ctx) {
                 let mut p = vec![1u8, 1];
                 p.extend(&o);
                 emit4(ctx, &V4::default(), &Tcp { opts: p, flags: 0x12, ..Default::default() });
+            }
+        }
+    }
+
+    // every 4-byte option area over an alphabet of kinds / length bytes (exhaustive for short areas: every way a
+    // short area can be malformed or well-formed), as SYN; thorough: 16 symbols, and 8-byte areas = 6 free bytes + tail
+    let alpha: Vec<u8> = if ctx.tier == Tier::Thorough { vec![0, 1, 2, 3, 4, 5, 6, 7, 8, 9, 10, 11, 18, 77, 254, 255] } else { vec![0, 1, 2, 3, 4, 5, 8, 10, 18, 77, 255] };
+    for &a in &alpha {
+        for &b in &alpha {
+            for &c in &alpha {
+                for &d in &alpha {
+                    emit4(ctx, &V4::default(), &Tcp { opts: vec![a, b, c, d], ..Default::default() });
+                }
+            }
+        }
+    }
+    if ctx.tier == Tier::Thorough {
+        let al6: [u8; 7] = [0, 1, 2, 3, 4, 8, 77];
+        let mut idx = [0usize; 6];
+        'outer: loop {
+            let free: Vec<u8> = idx.iter().map(|&i| al6[i]).collect();
+            for tail in [[1u8, 1], [0, 0], [3, 3]] {
+                let mut o = free.clone();
+                o.extend(tail);
+                emit4(ctx, &V4::default(), &Tcp { opts: o, flags: 0x12, ..Default::default() });
+            }
+            let mut k = 0;
+            loop {
+                idx[k] += 1;
+                if idx[k] < al6.len() {
+                    break;
+                }
+                idx[k] = 0;
+                k += 1;
+                if k == idx.len() {
+                    break 'outer;
+                }
             }
         }
     }
